@@ -14,12 +14,13 @@ CONFIG = {
         "V.C01.canonical_eq_spec_general", "V.C01.canonical_eq_spec", "V.C01.canonical_eq_canonicalSpec",
         "V.C01.canonical_rejects_invalid", "V.C01.canonical_unique", "V.C01.canonical_unique_conv",
         "V.C01.canonical_output_valid", "V.C01.canonical_idem", "V.C01.encodeCanon_injective",
-        "V.C01.enforced_rejects", "V.C01.enforced_iff",
+        "V.C01.enforced_rejects", "V.C01.enforced_iff", "V.C01.canonical_of_rendering",
     ],
     "rule": "type-directed JSON values (depth<=5, keys needing escapes, non-BMP, integer boundaries, fractions/exponents/-0) x "
             "random presentations (whitespace, member order, escape spellings) + malformed stream; an op is non-trivial when "
             "the text is not a bare scalar; distinct by op line",
     "nontrivial": lambda op, impl: len(op) > 40,
     "trusted": COMMON_TRUSTED + ["gjson.Valid / gjson parse modelled by VModel.Json.parse (validated by correspondence)"],
-    "assumptions": ["texts with duplicate keys, invalid UTF-8 or lone surrogates are outside C01's quantifier (compared impl vs model only)"],
+    "assumptions": ["texts with duplicate keys, invalid UTF-8 or lone surrogates are outside C01's quantifier (compared impl vs model only); "
+                    "the proofs need only 'no lone surrogate escape' (V.C01.canonical_eq_spec_general): a lone \\uD800 is dropped by CompactJSON but decoded as U+FFFD by gjson"],
 }
